@@ -384,10 +384,16 @@ impl PackageBuilder {
         })?;
 
         let (cpio_path, dir) = if dest.starts_with('.') {
+            // strip_prefix() fails for destinations like "./" whose parent is empty
+            let parent = parent
+                .strip_prefix(".")
+                .map_err(|_| Error::InvalidDestinationPath {
+                    path: dest.clone(),
+                    desc: "no parent directory found",
+                })?;
             (
                 dest.to_string(),
-                // strip_prefix() should never fail because we've checked the special cases already
-                format!("/{}/", parent.strip_prefix(".").unwrap().to_string_lossy()),
+                format!("/{}/", parent.to_string_lossy()),
             )
         } else {
             (
@@ -396,13 +402,22 @@ impl PackageBuilder {
             )
         };
 
+        // file_name() is None for destinations ending in ".." (e.g. "/usr/..")
+        let base_name = pb
+            .file_name()
+            .ok_or_else(|| Error::InvalidDestinationPath {
+                path: dest.clone(),
+                desc: "no file name found",
+            })?
+            .to_string_lossy()
+            .to_string();
+
         let mut hasher = sha2::Sha256::default();
         hasher.update(&content);
         let hash_result = hasher.finalize();
         let sha_checksum = hex::encode(hash_result); // encode as string
         let entry = PackageFileEntry {
-            // file_name() should never fail because we've checked the special cases already
-            base_name: pb.file_name().unwrap().to_string_lossy().to_string(),
+            base_name,
             size: content.len() as u64,
             content,
             flags: options.flag,
